@@ -66,6 +66,8 @@ def build_models(sig, names, extra_meta=None):
                     kw = {'fields': [names.field(x) for x in ix['fields']]}
                     if ix.get('name', NONE) != NONE:
                         kw['name'] = ix['name']
+                    if ix.get('cond', NONE) not in (NONE, None):
+                        kw['condition'] = models.Q(**{'%s__gt' % names.field(ix['cond']): 0})
                     idxs.append(models.Index(**kw))
                 meta['indexes'] = idxs
             if extra_meta and mn in extra_meta:
